@@ -379,6 +379,10 @@ func (p *Parser) parseBuffer(buf []byte, last bool) (err error) {
 					}
 				}
 			}
+			if _, ok := p.stack[len(p.stack)-1].(gen.Key); ok {
+				// A key and colon with no value.
+				return p.newError(off, "unexpected object close")
+			}
 			p.starts = p.starts[0:depth]
 			n := p.stack[len(p.stack)-1]
 			p.stack = p.stack[:len(p.stack)-1]
